@@ -66,6 +66,7 @@ type Case struct {
 	Threads []Thread `json:"threads"`
 	Workers int      `json:"workers,omitempty"`
 	Monitor Monitor  `json:"monitor,omitempty"`
+	Restart bool     `json:"restart,omitempty"` // the directly started threads take their ids BEFORE the processor is started, and the processor is started, finished and started again before the threads run (a host which reloads its rules)
 	Note    string   `json:"note,omitempty"` // directed cases: what the case is about
 	// Expect names rendezvous keys whose not being reached is a violation of the
 	// non-exclusion of different names (directed cases): key -> signature
@@ -200,10 +201,21 @@ func runCase(c Case) *hx.Failure {
 		return hx.Failf("harness-program-rejected", "generated program was rejected: %v\n%s", setupErr, src)
 	}
 
+	var earlyTids []uint64
+	if c.Restart && useSinks {
+		for range c.Threads {
+			earlyTids = append(earlyTids, erp.NewThreadID())
+		}
+	}
 	if useSinks {
 		hx.WriteInflight(c)
 		defer hx.ClearInflight()
 		proc.Start()
+		if c.Restart {
+			proc.Finish()
+			proc.Start()
+			hx.E.Class("processor.restarted-before-threads-run", 1)
+		}
 	}
 
 	// --- run the threads ----------------------------------------------------------
@@ -246,6 +258,12 @@ func runCase(c Case) *hx.Failure {
 					tids[tid] = true
 					guardMu.Unlock()
 				}
+				if earlyTids != nil {
+					tid = earlyTids[i] // taken before the processor was restarted
+				}
+				st.mu.Lock()
+				st.thr[i].direct, st.thr[i].directTid = true, tid
+				st.mu.Unlock()
 				doYield(t.Delay)
 				if f := hx.Guard(func() {
 					_, threadErr[i] = callAST[t.Body].Runtime.Eval(tvs, make(map[string]interface{}), tid)
